@@ -127,6 +127,8 @@ def _parse_log(s: str):
         return []
     res = []
     for part in s.split(";"):
+        if part.count("|") != 3:        # not a log line (time-out / harness exception marker): nothing to parse
+            return []
         m, sev, t, occ = part.split("|")
         res.append((m, int(sev), Fraction(t), int(occ)))
     return res
@@ -141,6 +143,8 @@ def oracle(case, impl_out: list[str]) -> list[Failure]:
     # = occurrences for an aggregated entry carried over a clear / reconnect
     seg: list = []
     for op, shown in zip(case["ops"], impl_out):
+        if shown != "-" and any(part.count("|") != 3 for part in shown.split(";")):
+            return fails            # the harness could not drive this case (time-out marker): nothing to judge
         if op[0] != "agg":
             seg = [[dec(m), sev, t, occ] for (m, sev, t, occ) in _parse_log(shown)]
             continue
@@ -267,6 +271,8 @@ def nontrivial(case, out) -> bool:
 
 def run(ctx: Check) -> int:
     ctx.prove(MODULE, REQUIRED)
+    from harness.agg_common import warm_up
+    warm_up()
     ctx.rule = ("cases = sequences of aggregate_with(batch) / clear / reconnect (a new, empty log) calls. Exhaustive: every entry sequence up to length "
                 "3 (quick) / 4 (thorough) over 9 symbols = 3 (message, severity) keys x 3 times, cut into batches at random "
                 "places, plus samples of the next length. Generated: engine-like histories (advancing clock, bursts, "
